@@ -19,6 +19,7 @@ func TestGvcReplayScanner(t *testing.T) {
 		{},
 		{MatchBegin: true, MatchBeginAtomic: true, MatchBeginTryCatch: true, MatchDollarQuote: true, BackslashEscapes: true, HashComments: true, GoCommand: true},
 		{GoCommand: true, BeginEndTerminator: true, MatchBegin: true, OmitDelimiter: true},
+		{EscapedStringExt: true, MatchDollarQuote: true, MatchBeginAtomic: true},
 	}
 	var inputs []string
 	for _, a := range pieces {
